@@ -46,6 +46,30 @@ def wfile(name, text):
     return p
 
 
+import threading
+_text_paths, _text_lock = {}, threading.Lock()
+
+
+def path_for_text(text):
+    """every distinct module text is written exactly once (read-only afterwards, shared by all jobs)"""
+    h = hashlib.sha1(text.encode(errors="replace")).hexdigest()[:16]
+    with _text_lock:
+        if h not in _text_paths:
+            _text_paths[h] = wfile(f"m_{h}.mir", text)
+        return _text_paths[h]
+
+
+# work directories left behind by killed runs
+for d in os.listdir(os.path.join(VERIF, ".cache")):
+    if d.startswith("c16work-") and d != os.path.basename(WORK):
+        dp = os.path.join(VERIF, ".cache", d)
+        try:
+            if time.time() - os.path.getmtime(dp) > 3600:
+                shutil.rmtree(dp, ignore_errors=True)
+        except OSError:
+            pass
+
+
 # ----------------------------------------------------------------------------- proof gate
 SUPPORT = ["MirVerif.Lemmas.DupRestoreWfCheck", "MirVerif.Model.DupRestore", "MirVerif.Lemmas.DupRestore", "MirVerif.Lemmas.DupRestoreSpec",
            "MirVerif.Lemmas.DupRestoreRegs", "MirVerif.Lemmas.DupRestoreEdits",
@@ -168,7 +192,7 @@ seen_struct = set()
 def struct_case(mir_text, script_lines, link, label, how):
     """run one module through harness and model; returns list of problems (dicts)"""
     h = hashlib.sha1((mir_text + "\n".join(script_lines) + str(link)).encode()).hexdigest()[:16]
-    mp = wfile(f"s_{h}.mir", mir_text)
+    mp = path_for_text(mir_text)
     sp = wfile(f"s_{h}.scr", "\n".join(script_lines) + "\n")
     rc, out, err = run([STRUCT, mp, sp] + (["link"] if link else []), timeout=120)
     probs = []
@@ -179,6 +203,11 @@ def struct_case(mir_text, script_lines, link, label, how):
         struct_stats["mirerror"] += 1      # the module is rejected by scan/load/link: not an input
         return probs
     kinds, funcs = parse_struct(out)
+    def _rm_script():
+        try:
+            os.remove(sp)
+        except OSError:
+            pass
     if rc != 0 and "DONE" in out and "LeakSanitizer" in err and "AddressSanitizer: " not in err.replace("SUMMARY: AddressSanitizer", ""):
         # a leak: is it there without any duplicate/restore (then it is not about C16)?
         rc0, out0, err0 = run([STRUCT, mp, sp] + (["link"] if link else []), timeout=120, env=dict(ENV, C16_NODUP="1"))
@@ -190,6 +219,7 @@ def struct_case(mir_text, script_lines, link, label, how):
         probs.append({"kind": "crash", "rc": rc, "summary": " | ".join(summ)[:400], "stderr": err[:1500] + " ... " + err[-800:],
                       "stdout_tail": out[-400:], "func": funcs[-1]["name"] if funcs else None})
         return probs
+    _rm_script()
     struct_stats["modules"] += 1
     # classification of every opcode (once per run is enough, it does not depend on the module)
     if not kinds_checked[0]:
@@ -308,8 +338,13 @@ def parse_behav(out):
 
 
 def run_plan(plan, tag, exe=None, timeout=30):
-    pp = wfile(f"plan_{tag}.txt", "\n".join(plan) + "\n")
+    pp = wfile(f"plan_{tag}_{threading.get_ident()}.txt", "\n".join(plan) + "\n")
     rc, out, err = run([exe or BEHAV, pp], timeout=timeout)
+    if not os.environ.get("C16_KEEP_CANON"):
+        try:
+            os.remove(pp)
+        except OSError:
+            pass
     return rc, out, err
 
 
@@ -511,7 +546,9 @@ def c2m_one(path):
     if p.returncode != 0 or not os.path.exists(out):
         return None
     with open(out, errors="replace") as f:
-        return (os.path.relpath(path, REPO), f.read())
+        text = f.read()
+    os.remove(out)
+    return (os.path.relpath(path, REPO), text)
 
 
 n_c2m_ok = 0
@@ -527,8 +564,8 @@ dist["corpus"] = {"mir_tests": n_mirtests, "c_sources_total": n_c_total, "c_sour
                   "c2m_S_ok": n_c2m_ok}
 
 progs = [c16_gen.ProgGen(rng, i, nbase=4 + rng.below(3), nlate=1 + rng.below(2),
-                         two_base_modules=rng.chance(2, 3)) for i in range(12 if QUICK else 60)]
-mixed = [c16_gen.ProgGen(rng, 100 + i, nbase=5, nlate=1, two_base_modules=False, flavour="mixed")
+                         two_base_modules=rng.chance(2, 3)) for i in range(12 if QUICK else 120)]
+mixed = [c16_gen.ProgGen(rng, 1000 + i, nbase=5, nlate=1, two_base_modules=False, flavour="mixed")
          for i in range(4 if QUICK else 20)]
 for p in progs + mixed:
     for (mname, text, names, late) in p.modules:
@@ -587,7 +624,7 @@ def funcs_of(text):
 
 def corpus_plan(label, text, level, iface, seed):
     r = SplitMix(seed)
-    path = wfile("b_" + hashlib.sha1(f"{label}|{level}|{iface}".encode()).hexdigest()[:14] + ".mir", text)
+    path = path_for_text(text)
     fs = funcs_of(text)
     plan = [f"OPT {level}", f"SCAN {path}", f"LOADLINK {iface}", "SNAP s0"]
     order = list(fs)
